@@ -26,7 +26,8 @@ RULE = ('Direct calls of the long-only sizer on a real broker: 1-6 assets from a
         " Round-4/5 reach: the broker's fee model replaced, cash withdrawn and the sizer's cash_buffer_percentage re-set between calls on one sizer; QuantTradingSystem-built sizers given both sizing keywords; exact clause (quantity == reference sizing in exact rationals unless a quotient is within 1e-12 of a whole number) incl. allocations that are exact multiples of the price; csv part: files in any row order with missing cells, a first bar without an Open, a source quoting a spread, a first-listed source whose history starts later."
         " Round-10 reach: `broker_other_feed` (the broker's own handler quotes x1.75; the sizer and the trading system are given another) in a third of the random cases; csv part: the first-listed, later-starting source may raise instead of answering NaN before its coverage, and the handler is asked 400, 30, 3 and 1 days earlier."
         " Round-11 reach (csv part): `scan_dir` - the source lists the directory itself, which also holds a gzip archive copy with other prices, a backup and a text file; sizing instants a fraction of a second either side of the whole second."
-        " Round-12 reach: `via_session` (a BacktestTradingSession accepts exactly the buffers in [0, 1]); csv part: `asked_later_first` (the handler priced later instants before it is asked at t).")
+        " Round-12 reach: `via_session` (a BacktestTradingSession accepts exactly the buffers in [0, 1]); csv part: `asked_later_first` (the handler priced later instants before it is asked at t)."
+        " Round-13 reach: csv part sizes 6-400 days after the last bar of every file; with via_qts an input the sizer rejects must make QuantTradingSystem.__call__ raise too.")
 ASSUMPTIONS = [
     'fee rates with commission + tax <= 1 (a fee above 100% has no meaningful budget)',
     'weight sums either <= 1e-9 (left unscaled by the code, only upper bounds asserted) or >= 5e-5',
@@ -120,6 +121,19 @@ def run_case(case):
         try:
             out = sizer(kit.T_OPEN, dict(weights))
         except ValueError:
+            if case.get('via_qts') and buf != 'default':
+                # ... and the error reaches the caller of the trading system too: a rebalance that cannot be sized is
+                # not skipped silently
+                class _Alpha(object):
+                    def __call__(self, dt):
+                        return dict(weights)
+                qts_ = q.QuantTradingSystem(q.StaticUniverse(sorted(weights)), b, 'p', dh, _Alpha(), long_only=True,
+                                            cash_buffer_percentage=buf, submit_orders=False)
+                try:
+                    qts_(kit.T_OPEN)
+                except ValueError:
+                    return Result(['rejected_' + inv, 'rejection_reaches_the_caller_of_the_trading_system'], nontrivial=True)
+                raise Violation('%s: the sizer refuses, but QuantTradingSystem.__call__ returned normally (weights %r)' % (inv, weights))
             return Result(['rejected_' + inv], nontrivial=True)
         raise Violation('%s was accepted: weights %r prices %r -> %r' % (inv, weights, dh.q, out))
 
@@ -543,7 +557,7 @@ def csv_cases(draw, long_only=True):
         for s in names[late:]:
             syms[s][0][3] = None
     first_late = max(market.first_date(r) for r in syms.values())
-    where = draw(st.sampled_from(['before', 'before', 'just_before', 'at_open', 'after', 'blank_mid', 'blank_mid']))
+    where = draw(st.sampled_from(['before', 'before', 'just_before', 'at_open', 'after', 'blank_mid', 'blank_mid', 'stale']))
     if where == 'blank_mid':
         # a bar in the middle of the first symbol's history has an empty Open; the sizer is asked at that very open
         # (the latest earlier observation is the previous day's close)
@@ -563,6 +577,11 @@ def csv_cases(draw, long_only=True):
         t = [first_late.year, first_late.month, first_late.day, 14, 29, 59]
     elif where == 'at_open':
         t = [first_late.year, first_late.month, first_late.day, 14, 30, 0]
+    elif where == 'stale':
+        # weeks after the last bar of every file (a halted market, monthly files): the last print is still the latest price
+        last_ = max(D.date(r[0], r[1], r[2]) for rows_ in syms.values() for r in rows_)
+        d = last_ + D.timedelta(days=draw(st.sampled_from([6, 9, 30, 400])))
+        t = [d.year, d.month, d.day, draw(st.sampled_from([14, 21])), 30 if False else 0, 0]
     else:
         d = first_late + D.timedelta(days=draw(st.integers(1, 5)))
         t = [d.year, d.month, d.day, 21, 0, 0]
